@@ -1,9 +1,12 @@
 """C15 -- a context can be reused: results are history independent and memory safe.
 
 proof   : coq/Props/Properties_C15.v (bookkeeping model of context.c/data.c, Old and Fixed variants)
-tie     : operation scripts run through harness/c15_reuse.c (real libmps, ASan+UBSan+LSan) and through the
-          extracted model bin/ctx; after every step (initialized, n, deg, zero_roots, error_state,
-          exit_required, helper secular equation) are compared
+tie     : operation scripts over the widened API (set_degree, output precision/format, starting phase, jacobi/crude/
+          avoid-multiprecision, every polynomial kind, errors, abort, async) run through harness/c15_reuse.c (real
+          libmps, ASan+UBSan+LSan) and through the extracted model bin/ctx (api old|fixed); after every step
+          (initialized, n, deg, zero_roots, error_state, exit_required, degree of the helper secular equation,
+          over_max, all settings, the 12 array sizes) are compared; the outcome of the numerical part that the model
+          needs (over_max / lastphase / error of THIS solve) is taken from the same solve on a fresh context
 verdict : decided on the real library only: sanitizer report, leak report after free, threads left after
           free, heap growth over 200 cycles, state/results differing from those of a fresh context.
 """
@@ -27,6 +30,15 @@ def gen_poly(rng, kind, dmax, zmax):
         a = [rng.choice([-1, 1]) * rng.randint(1, 9) for _ in range(n)]
         body = " ".join("%d %d" % (a[i], bs[i]) for i in range(n))
         return Poly("s", n, 0, "poly s %d %s" % (n, body), "secular n=%d" % n)
+    if kind == "c":
+        n = rng.randint(2, min(10, dmax))
+        c = [rng.randint(-9, 9) for _ in range(n)] + [rng.choice([-3, -1, 1, 2, 5])]
+        return Poly("c", n, 0, "poly c %d %s" % (n, " ".join(str(x) for x in c)), "chebyshev n=%d" % n)
+    if kind == "d":
+        n = rng.randint(2, min(8, dmax))
+        z = rng.choice([0, 0, 1]) if zmax else 0
+        c = [0.0] * z + [rng.choice([-1, 1]) * rng.randint(1, 29) / 10.0 for _ in range(n - z)] + [1.0]
+        return Poly("d", n, z, "poly d %d %d %s" % (n, rng.choice([53, 53, 24, 100]), " ".join(repr(x) for x in c)), "float d=%d z=%d" % (n, z))
     d = rng.randint(1, dmax)
     z = 0
     if zmax and d > 1 and rng.random() < 0.5:
@@ -51,36 +63,114 @@ def gen_session(rng, length, clean, dmax):
     while n_ops < length:
         r = rng.random()
         n_ops += 1
-        if cur is None or r < 0.30:
-            kinds = ["m"] * 6 + ["s"] * 2 + ([] if (clean and initialised) or dead else ["f"] * 2)
+        if cur is None or r < 0.27:
+            kinds = ["m"] * 6 + ["s"] * 2 + ["d"] + ([] if (clean and initialised) or dead else ["f"] * 2)
+            if algo == "s" or not clean: kinds += ["c"]
             k = rng.choice(kinds)
             p = gen_poly(rng, k, dmax, 0 if clean else 5)
-            if k == "s" and algo != "s":
+            if k in "sc" and algo != "s" and (clean or rng.random() < 0.7):      # otherwise: the standard algorithm reports an error
                 algo = "s"; ops.append(("algo s", "algo s", None))
+            if k in "sc" and algo != "s": dead = True
             cur = p
             ops.append((p.line, "setpoly %d %d %s" % (p.d, p.z, p.kind), p))
-        elif r < 0.58:
+        elif r < 0.52:
             a = "solve_async" if (not clean and rng.random() < 0.25) else "solve"
             ops.append((a, a, ("solve", cur, algo, goal)))
             if not dead: initialised = True
-        elif r < 0.66:
+        elif r < 0.58:
             a = rng.choice("us")
-            if cur is not None and cur.kind == "s": a = "s"
+            if cur is not None and cur.kind in "sc" and (clean or rng.random() < 0.8): a = "s"
+            if cur is not None and cur.kind in "sc" and a == "u": dead = True
             algo = a; ops.append(("algo " + a, "algo " + a, None))
-        elif r < 0.74:
+        elif r < 0.64:
             goal = rng.choice("ia"); ops.append(("goal " + goal, "goal " + goal, None))
-        elif r < 0.84:
+        elif r < 0.72:
+            # the plain setters: output precision / format, starting phase, the three switches
+            w = rng.choice(["prec %d" % rng.choice([30, 53, 64, 120]), "format %d" % rng.randint(0, 4), "startphase %d" % rng.choice([0, 1, 2]),
+                            "jacobi %d" % rng.randint(0, 1), "crude %d" % rng.randint(0, 1), "avoidmp %d" % rng.randint(0, 1)])
+            ops.append((w, w, None))
+        elif r < 0.78:
+            # mps_context_set_degree called directly: with the degree of the active polynomial (only the helper goes away)
+            # or with another one (the polynomial must be set again before the next solve; the harness skips the solve otherwise)
+            if cur is not None and rng.random() < 0.6: k = cur.d - cur.z
+            else: k = rng.randint(1, dmax); cur = None if (cur is None or k != cur.d - cur.z) else cur
+            ops.append(("setdeg %d" % k, "setdeg %d" % k, None))
+        elif r < 0.85:
             ops.append(("get_roots", "get_roots", None))
         elif r < 0.88:
             ops.append(("free_poly", "free_poly", None)); cur = None
         elif r < 0.92 and not clean and not dead and n_ops > length // 2:
-            ops.append(("bad " + rng.choice(["x^", "x^2+*3", "x^(2"]), "bad", None)); dead = True
+            if rng.random() < 0.3: ops.append(("abort", "abort", None))
+            else: ops.append(("bad " + rng.choice(["x^", "x^2+*3", "x^(2"]), "bad", None)); dead = True
         elif r < 0.96:
             ops.append(("free", "free", None)); ops.append(("leakcheck", "leakcheck", None))
             ops.append(("new", "new", None))
             algo, goal, cur, initialised, dead = "u", "i", None, False, False
     ops.append(("free", "free", None)); ops.append(("leakcheck", "leakcheck", None))
     return ops
+
+
+def mono(rng, d, z):
+    c = [0] * z + [rng.randint(-9, 9) for _ in range(d - z + 1)]
+    if c[z] == 0: c[z] = rng.choice([-3, -1, 1, 2])
+    if c[d] == 0: c[d] = rng.choice([-2, 1, 1, 3])
+    return "poly m %d %s" % (d, " ".join(str(x) for x in c))
+
+
+def secular(rng, n):
+    bs = rng.sample(range(-20, 21), n)
+    return "poly s %d %s" % (n, " ".join("%d %d" % (rng.choice([-1, 1]) * rng.randint(1, 9), bs[i]) for i in range(n)))
+
+
+AIMED = ["shrink_grow", "zero_roots", "algo_switch", "error_between", "async_reuse", "over_max", "settings", "set_degree"]
+
+
+def gen_aimed_session(rng, k, dmax):
+    """sessions aimed at the case splits of the proofs (resize: n' < n, = n, > n across the size of the first allocation;
+    zero roots before / after; helper lifetime across algorithm switches and set_degree; sticky error; async; per-solve flags)"""
+    t = AIMED[k % len(AIMED)]
+    L = ["new"]
+    if t == "shrink_grow":
+        d0 = rng.randint(4, max(5, dmax // 2))
+        L += [mono(rng, d0, 0), "solve"]
+        for d in (rng.randint(1, d0 - 1), d0, rng.randint(d0 + 1, dmax), d0 - 1, d0 + 1):
+            z = rng.choice([0, 0, min(2, d - 1)])
+            L += [mono(rng, d + z, z), "solve"] + (["get_roots"] if rng.random() < 0.4 else [])
+    elif t == "zero_roots":
+        d = rng.randint(3, dmax // 2); z = rng.randint(1, 4)
+        L += [mono(rng, d + z, z), "solve", "get_roots", mono(rng, d, 0), "solve", mono(rng, d + z + 3, z + 1), "solve", "get_roots",
+              "algo s", secular(rng, rng.randint(2, 8)), "solve", "get_roots", "algo u", mono(rng, d + 1, 1), "solve"]
+    elif t == "algo_switch":
+        d = rng.randint(3, 12)
+        L += [mono(rng, d, 0), "solve", "algo s", "solve", "algo u", "solve", "algo s", "solve", "setdeg %d" % d, "solve",
+              mono(rng, d, 0), "solve", mono(rng, d + rng.randint(1, 5), 0), "solve", "algo u", "solve"]
+    elif t == "error_between":
+        d = rng.randint(3, 10)
+        how = rng.choice(["cheb", "bad", "abort"])
+        L += [mono(rng, d, 0), "solve"]
+        if how == "cheb": L += ["poly c 4 1 -2 0 3 5", "solve", "get_roots"]
+        elif how == "bad": L += ["bad x^2+*3"]
+        else: L += ["abort", "algo s", "solve"]
+        L += [mono(rng, d + 2, 1), "solve", "get_roots", "setdeg %d" % rng.randint(1, 9)]
+    elif t == "async_reuse":
+        d = rng.randint(3, 12)
+        L += [mono(rng, d, 0), "solve_async", "get_roots", mono(rng, d + rng.randint(1, 6), rng.choice([0, 1])), "solve",
+              "algo s", "solve_async", mono(rng, max(1, d - 2), 0), "solve_async"]
+    elif t == "over_max":
+        # a solve that legitimately exhausts its input precision, then exact input on the same context
+        algo2 = rng.choice("us")
+        L += ["goal a", "prec %d" % rng.choice([200, 400]),
+              "poly d 4 53 0.1 -0.3 0.7 1.1 1.0" if rng.random() < 0.5 else gen_poly(rng, "d", 6, 0).line.replace(" 24 ", " 53 ").replace(" 100 ", " 53 "),
+              "solve", "goal " + rng.choice("ia"), "algo " + algo2, roots_poly(rng, rng.randint(3, 6), 1), "solve", "get_roots"]
+    elif t == "settings":
+        d = rng.randint(3, 10)
+        L += ["startphase %d" % rng.choice([1, 2]), "jacobi 1", mono(rng, d, 0), "solve", "format 2", "crude 1", "solve", "crude 0",
+              "avoidmp 1", mono(rng, d + 3, 0), "solve", "avoidmp 0", "algo s", "startphase 0", "prec 64", "solve", "jacobi 0", "startphase 2", "solve"]
+    elif t == "set_degree":
+        d = rng.randint(3, 10)
+        L += ["setdeg %d" % rng.randint(1, dmax), mono(rng, d, 0), "setdeg %d" % d, "solve", "setdeg %d" % (d + 4), "setdeg %d" % max(1, d - 2),
+              "solve", mono(rng, d + 1, 0), "algo s", "solve", "setdeg %d" % (d + 1), "solve", "setdeg 1"]
+    return L + ["free", "leakcheck"]
 
 
 def roots_poly(rng, n, mult):
@@ -136,6 +226,25 @@ WITNESSES = {
     "witness_sticky_zero_roots": ["new", "poly m 8 0 0 0 0 0 1 0 0 1", "algo s", "poly s 4 1 1 1 2 1 3 1 4", "solve", "get_roots", "free", "leakcheck"],
     "witness_async_pool": ["new", "poly m 3 -1 0 0 1", "solve_async", "free", "leakcheck"],
     "witness_error_then_free": ["new", "poly m 3 -1 0 0 1", "solve", "bad x^", "solve", "free", "leakcheck"],
+    # C15_wide_over_max_secular_refuted: over_max of an earlier solve survives a solve with the secular algorithm
+    "witness_stale_over_max_secular": ["new", "goal a", "prec 400", "poly d 4 53 0.1 -0.3 0.7 1.1 1.0", "solve", "algo s", "goal i",
+                                       "poly r 5 1 2 3 5 7", "solve", "free", "leakcheck"],
+    # the same with the standard algorithm, which clears the flag (main.c:62)
+    "over_max_then_exact_standard": ["new", "goal a", "prec 400", "poly d 4 53 0.1 -0.3 0.7 1.1 1.0", "solve", "poly r 5 1 2 3 5 7", "solve",
+                                     "free", "leakcheck"],
+    "abort_then_secular_solve": ["new", "algo s", "poly m 5 1 0 0 0 2 1", "abort", "solve", "get_roots", "free", "leakcheck"],
+    "abort_then_secular_equation": ["new", "algo s", "poly s 4 1 1 1 2 1 3 1 4", "abort", "solve", "free", "leakcheck"],
+    "stale_dpm_overflow": ["new", "algo u", "goal i", "poly r 2 9 -7", "solve", "poly r 7 -1 7 7 -1 7 -1 7", "solve", "get_roots", "poly r 2 -6 -11", "solve",
+                           "poly r 6 1 6 8 1 -6 1", "solve", "poly r 3 -7 -3 -3", "solve", "free", "leakcheck"],
+    "stale_dpm_wrong_disc": ["new", "algo u", "goal i", "poly r 3 -3 -1 -3", "solve", "poly r 10 4 5 5 5 -2 9 11 5 -2 -2", "solve", "poly r 2 -4 7", "solve",
+                             "poly r 9 4 -10 -4 5 5 5 11 -12 5", "solve", "poly r 2 1 -3", "solve", "free", "leakcheck"],
+    # sticky error before the first solve: interface.c:68 returns at once, nothing is allocated (C15_sticky_error_flag)
+    "error_before_first_solve": ["new", "bad x^2+*3", "poly m 3 -1 0 0 1", "solve", "algo s", "solve", "get_roots", "free", "leakcheck"],
+    "secular_resolve_forced_phase": ["new", "algo s", "startphase 1", "poly m 21 -9 -1 -9 7 6 6 2 -4 -5 4 -8 0 -9 -4 -4 4 2 -4 -2 -4 7 9", "solve", "solve", "free", "leakcheck"],
+    "secular_mp_phase": ["new", "prec 200", "algo s", "poly r 4 -8 -8 -5 -8", "solve", "get_roots", "free", "leakcheck"],
+    # helper secular equation across set_degree with the same degree, Chebyshev base, error of the standard algorithm on it
+    "helper_same_degree": ["new", "algo s", "poly m 4 -1 0 0 0 1", "solve", "setdeg 4", "solve", "poly m 4 2 0 0 1 1", "solve",
+                           "poly c 4 1 -2 0 3 5", "solve", "algo u", "solve", "free", "leakcheck"],
 }
 
 
@@ -158,6 +267,13 @@ def model_line(hl):
             z = 0
             while z < d and c[z] == 0: z += 1
             return "setpoly %d %d f" % (d, z)
+        if w[1] == "d":
+            d = int(w[2]); c = [float(x) for x in w[4:5 + d]]
+            z = 0
+            while z < d and c[z] == 0: z += 1
+            return "setpoly %d %d m" % (d, z)
+        if w[1] == "c":
+            return "setpoly %d 0 c" % int(w[2])
     if w[0] == "bad": return "bad"
     return hl
 
@@ -177,14 +293,13 @@ def run_harness(ctx, h, lines, timeout=120):
 ST_RE = re.compile(r"^st (\d+) (\S+) ctx=(\d) init=(\d) n=(-?\d+) deg=(-?\d+) zr=(-?\d+) err=(\d) exitreq=(\d) sec=(\d) bmpc=(\d) heap=(\d+) thr=(-?\d+) ?(\S*)")
 
 
-SZ = {}           # last parsed run: line -> (exact?, sizes of the 12 work arrays)
 ARR = ["root", "order", "fppc1", "mfpc1", "mfppc1", "spar1", "again_old", "fap1", "fap2", "dap1", "dpc1", "dpc2"]
 SIZE_MISMATCH = []
 
 
 def parse_out(out):
-    SZ.clear()
-    st, roots, leaks, cur = {}, {}, {}, None
+    """-> st, roots, leaks, sz (line -> (exact?, sizes of the 12 work arrays)), fl (line -> per-solve flags and settings)"""
+    st, roots, leaks, sz, fl, cur = {}, {}, {}, {}, {}, None
     for l in out.splitlines():
         m = ST_RE.match(l)
         if m:
@@ -193,14 +308,16 @@ def parse_out(out):
                                  exitreq=int(g[8]), sec=int(g[9]), bmpc=int(g[10]), heap=int(g[11]), thr=int(g[12]), note=g[13])
             continue
         if l.startswith("sz "):
-            w = l.split(); SZ[int(w[1])] = (int(w[2]), [int(x) for x in w[3].split(",")]); continue
+            w = l.split(); sz[int(w[1])] = (int(w[2]), [int(x) for x in w[3].split(",")]); continue
+        if l.startswith("fl "):
+            w = l.split(); fl[int(w[1])] = dict((x.split("=")[0], int(x.split("=")[1])) for x in w[2:]); continue
         if l.startswith("roots "):
             w = l.split(); cur = int(w[1]); roots[cur] = dict(count=int(w[2]), phase=w[3], err=int(w[4].split("=")[1]), r=[])
         elif l.startswith("r ") and cur is not None:
             roots[cur]["r"].append(l.split())
         elif l.startswith("leak "):
             w = l.split(); leaks[int(w[1])] = int(w[2])
-    return st, roots, leaks
+    return st, roots, leaks, sz, fl
 
 
 def hexval(t):
@@ -265,21 +382,41 @@ def leak_sites(err):
 
 
 # ----------------------------------------------------------------------------- one session
-def evaluate(ctx, h, hlines, want_fresh=True):
-    """Run one script; return (list of (signature, what), info dict)."""
-    viol, info = [], {"solves": 0, "fresh_compared": 0, "bitexact": 0, "steps": 0}
-    mlines = [model_line(l) for l in hlines]
-    mo = ctx.run_model("ctx", "\n".join(mlines) + "\n", args=["resize", "old"]).splitlines()
-    model = []
-    for l in mo[:-1]:
+SETTERS = ("prec", "format", "startphase", "jacobi", "crude", "avoidmp")
+WIDE_KEYS = ["init", "zr", "err", "exitreq", "over", "oprec", "fmt", "sph", "jac", "crude", "avoid", "algo", "goal"]
+
+
+def model_states(out):
+    res = []
+    for l in out.splitlines()[:-1]:
         d = dict(x.split("=") for x in l.split()[1:] if "=" in x)
         d["ok"] = 0 if l.startswith("ok=0") else 1
-        model.append(d)
-    # the repaired code (fixes/C15_*.patch) follows the Fixed variant; a step must agree with one of the two
-    mf = ctx.run_model("ctx", "\n".join(mlines) + "\n", args=["resize", "fixed"]).splitlines()
-    model_fixed = [dict(x.split("=") for x in l.split()[1:] if "=" in x) for l in mf[:-1]]
-    first_bad = next((i for i, d in enumerate(model) if d["ok"] == 0), None)
-    model_leak = any(d.get("leaked") == "1" for d in model)
+        res.append(d)
+    return res
+
+
+def stale_dpm_before(hlines, fl, upto):
+    """the history precondition of the data_prec_max defect: on this context an earlier solve ended in the multiprecision phase
+    (lastphase = mp_phase) and another polynomial was set after it, before step `upto`"""
+    mp_seen, armed = False, False
+    for i, l in enumerate(hlines[:upto], 1):
+        w = l.split()
+        if w[0] == "new" or w[0] == "free": mp_seen, armed = False, False
+        if w[0] in ("solve", "solve_async") and i in fl and fl[i]["phase"] == 3: mp_seen = True
+        if w[0] == "poly" and mp_seen: armed = True
+    return armed
+
+
+def evaluate(ctx, h, hlines, want_fresh=True):
+    """Run one script; return (list of (signature, what), info dict)."""
+    viol, info = [], {"solves": 0, "fresh_compared": 0, "bitexact": 0, "steps": 0, "wide_steps": 0, "flag_solves": 0, "phase_differs": 0}
+    mlines = [model_line(l) for l in hlines]
+    # the allocation model of the code before fixes/C15_resize_zero_roots & co: only used to NAME a defect that comes back
+    first_bad, model_leak = None, False
+    if not any(l.startswith("setdeg") for l in hlines):
+        model = model_states(ctx.run_model("ctx", "\n".join(mlines) + "\n", args=["resize", "old"]))
+        first_bad = next((i for i, d in enumerate(model) if d["ok"] == 0), None)
+        model_leak = any(d.get("leaked") == "1" for d in model)
 
     def defect_at(i):
         w = mlines[i].split()
@@ -287,23 +424,9 @@ def evaluate(ctx, h, hlines, want_fresh=True):
         return "resize-with-zero-roots"
 
     rc, out, err = run_harness(ctx, h, hlines)
-    st, roots, leaks = parse_out(out)
+    st, roots, leaks, sizes, fl = parse_out(out)
     info["steps"] = len(st)
     last = max(st) if st else 0
-    sizes = dict(SZ)
-    for i in sorted(sizes):
-        exact, got = sizes[i]
-        if i - 1 >= len(model) or first_bad is not None: break
-        exp_o = [int(x) for x in model[i - 1]["alloc"].split(",")]
-        exp_f = [int(x) for x in model_fixed[i - 1]["alloc"].split(",")]
-        ok = (lambda e: all((g == x) if exact else (g >= x) for g, x in zip(got, e)))
-        if not ok(exp_o) and not ok(exp_f):
-            badk = [ARR[k] for k in range(12) if ((got[k] != exp_f[k]) if exact else (got[k] < exp_f[k]))]
-            info["size_steps_bad"] = info.get("size_steps_bad", 0) + 1
-            if len(SIZE_MISMATCH) < 5:
-                SIZE_MISMATCH.append({"script": hlines[:i], "arrays": badk, "got": got, "model": exp_f, "step": i})
-            break
-        info["size_steps"] = info.get("size_steps", 0) + 1
     if rc == 96:
         # a write past the limbs of a GMP number (libgmp is not instrumented; see the guard in the harness)
         approx_before, goal = False, "i"
@@ -316,6 +439,8 @@ def evaluate(ctx, h, hlines, want_fresh=True):
         fr = "<".join(f for f in fr.split("<") if not f.startswith("vf_"))
         if approx_before:
             sig = "gmp-overflow:stale-precision-after-approximate"
+        elif stale_dpm_before(hlines, fl, last + 1):
+            sig = "gmp-overflow:stale-data_prec_max-after-mp-phase"
         else:
             sig = "gmp-overflow:%s:%s" % (hlines[last].split()[0] if last < len(hlines) else "?", fr or "sweep")
         g = re.search(r"gmpguard .*", out)
@@ -327,25 +452,103 @@ def evaluate(ctx, h, hlines, want_fresh=True):
             sig = "memory:" + defect_at(first_bad)
         viol.append((sig, "invalid memory access or abnormal end at step %d (%s): %s" % (last + 1, hlines[last] if last < len(hlines) else "?", sig)))
         return viol, info
-    # --- per step: model vs implementation (bookkeeping), implementation vs property
-    have_poly = False
+
+    # --- every solve again on a fresh context with the same settings: the reference for results and per-solve flags
+    fresh_lines, fresh_at = [], {}
+    S0 = dict(algo="u", goal="i"); S = dict(S0); polyline = None
+    prev = None
+    solve_steps = []
+    resolved = False          # the active polynomial has already been solved on this context (helper secular equation kept)
+    for i, l in enumerate(hlines, 1):
+        w = l.split()
+        if w[0] in ("new", "free", "poly", "setdeg", "free_poly"): resolved = False
+        if w[0] == "new" and (prev is None or not st.get(prev, {}).get("ctx")): S, polyline = dict(S0), None
+        if w[0] in ("algo", "goal") or w[0] in SETTERS: S[w[0]] = w[1]
+        if w[0] == "poly": polyline = l
+        if w[0] == "free_poly": polyline = None
+        if w[0] in ("solve", "solve_async") and i in st and st[i]["ctx"]:
+            ran = i in roots and st[i]["note"] != "skipped"
+            err_before = bool(prev is not None and st.get(prev, {}).get("err"))
+            solve_steps.append((i, ran, err_before, polyline, dict(S), resolved))
+            if ran and not err_before: resolved = True
+            if ran and polyline and not err_before and want_fresh:
+                base = len(fresh_lines)
+                pre = ["new", "algo " + S["algo"], "goal " + S["goal"]] + ["%s %s" % (k, S[k]) for k in SETTERS if k in S]
+                fresh_lines += pre + [polyline, "solve", "free"]
+                fresh_at[i] = base + len(pre) + 2
+        if i in st: prev = i
+    fst, froots, ffl = {}, {}, {}
+    if fresh_lines:
+        frc, fout, ferr = run_harness(ctx, h, fresh_lines)
+        if frc == 0: fst, froots, _, _, ffl = parse_out(fout)
+        else: fresh_at = {}
+
+    # --- per step: the extracted model of the widened API vs the implementation (bookkeeping, flags, settings, sizes)
+    wl, oracle_ok = [], True
+    for i, l in enumerate(hlines, 1):
+        w = l.split()
+        if w[0] in ("solve", "solve_async"):
+            j = fresh_at.get(i)
+            if j is not None and j in ffl and j in fst:
+                o = (ffl[j]["over"], ffl[j]["phase"], fst[j]["err"])
+            elif i in fl:                                   # no reference (not run, sticky error, no fresh runs wanted): its own outcome
+                o = (fl[i]["over"], fl[i]["phase"], fl[i]["haserr"])
+            else:
+                o = (0, 0, 0)
+            wl.append("%s %d %d %d" % (w[0], o[0], o[1], o[2]))
+        else:
+            wl.append(model_line(l))
+    wide = {v: model_states(ctx.run_model("ctx", "\n".join(wl) + "\n", args=["api", v])) for v in ("old", "fixed")}
+    have_deg = False
+    prev_fl = None
     for i, l in enumerate(hlines, 1):
         s = st.get(i)
-        if s is None: continue
-        md = model[i - 1]
-        if l.startswith("poly"): have_poly = True
-        if l == "new": have_poly = False
-        if s["ctx"]:
-            keys = ["init", "zr", "err", "exitreq"] + (["n", "deg"] if have_poly else [])
-            diff = [k for k in keys if int(md[k]) != s[k]]
-            if (int(md["sec"]) >= 0) != bool(s["sec"]): diff.append("sec")
-            mdf = model_fixed[i - 1]
-            diff_fixed = [k for k in keys if int(mdf[k]) != s[k]]
-            if (int(mdf["sec"]) >= 0) != bool(s["sec"]): diff_fixed.append("sec")
-            if diff and diff_fixed and first_bad is None:
-                viol.append(("correspondence:state:%s:%s" % (l.split()[0], ",".join(diff)),
-                             "model and implementation disagree on %s after step %d (%s)" % (diff, i, l)))
+        if l in ("new", "free"): prev_fl = None
+        if l == "new" and s is not None and s["note"] != "ignored": have_deg = False
+        if l.startswith("poly") or l.startswith("setdeg"): have_deg = True
+        if s is None or not s["ctx"] or i not in fl: continue
+        obs = dict(s); obs.update(fl[i]); obs["sec"] = fl[i]["secdeg"]
+        keys = WIDE_KEYS + (["n", "deg"] if have_deg else []) + ["sec"]
+        diffs = {v: [k for k in keys if int(wide[v][i - 1][k]) != obs[k]] for v in wide}
+        if s["bmpc"] != 0: diffs = {v: d + ["bmpc"] for v, d in diffs.items()}
+        if obs["haserr"] != obs["err"]: diffs = {v: d + ["has_errors"] for v, d in diffs.items()}
+        if i in sizes and not (diffs["old"] and diffs["fixed"]):
+            exact, got = sizes[i]
+            exp = [int(x) for x in wide["old"][i - 1]["alloc"].split(",")]
+            if not all((g == x) if exact else (g >= x) for g, x in zip(got, exp)):
+                badk = [ARR[k] for k in range(12) if ((got[k] != exp[k]) if exact else (got[k] < exp[k]))]
+                info["size_steps_bad"] = info.get("size_steps_bad", 0) + 1
+                if len(SIZE_MISMATCH) < 5:
+                    SIZE_MISMATCH.append({"script": hlines[:i], "arrays": badk, "got": got, "model": exp, "step": i})
                 break
+            info["size_steps"] = info.get("size_steps", 0) + 1
+        # the property's own predicate on the flags a user reads after a solve: same answer as the fresh context
+        j = fresh_at.get(i)
+        if j is not None and j in ffl:
+            info["flag_solves"] += 1
+            if ffl[j]["phase"] != obs["phase"]: info["phase_differs"] += 1
+            if ffl[j]["over"] != obs["over"]:
+                viol.append(("history:stale-flag:over_max:%s" % ("secular" if obs["algo"] else "standard"),
+                             "step %d (%s): mps_context_get_over_max is %d on the reused context, %d on a fresh context with the same settings and polynomial"
+                             % (i, l, obs["over"], ffl[j]["over"])))
+                if "over" in diffs["old"] or "over" in diffs["fixed"]:
+                    diffs = {v: [k for k in d if k != "over"] for v, d in diffs.items()}
+            if fst[j]["err"] != obs["err"] and not obs["exitreq"]:
+                viol.append(("history:stale-flag:error_state", "step %d (%s): mps_context_has_errors is %d on the reused context, %d on a fresh one"
+                             % (i, l, obs["err"], fst[j]["err"])))
+        # a solve refused because of the sticky error flag runs nothing: lastphase (not compared otherwise) keeps its value too
+        if l.split()[0] in ("solve", "solve_async") and prev_fl is not None and prev_fl[0]["err"] and s["note"] != "skipped" \
+           and fl[i]["phase"] != prev_fl[1]["phase"]:
+            diffs = {v: d + ["lastphase-after-refused-solve"] for v, d in diffs.items()}
+            obs["lastphase-after-refused-solve"] = fl[i]["phase"]
+        prev_fl = (s, fl[i])
+        if diffs["old"] and diffs["fixed"]:
+            d = min(diffs.values(), key=len)
+            viol.append(("correspondence:state:%s:%s" % (l.split()[0], ",".join(d)),
+                         "model and implementation disagree on %s after step %d (%s): implementation %s, model %s"
+                         % (d, i, l, [obs[k] if k in obs else "?" for k in d], [wide["old"][i - 1].get(k) for k in d])))
+            break
+        info["wide_steps"] += 1
     # --- leaks reported by LSan after free, threads left behind
     n_async = 0          # every executed solve_async leaves one thread behind for the life of the process
     for i, l in enumerate(hlines, 1):
@@ -363,58 +566,44 @@ def evaluate(ctx, h, hlines, want_fresh=True):
             pre = "leak:zero-roots-resize:" if (model_leak and re.search(r"mps_allocate_data|mps_context_expand", site)) else "leak:"
             viol.append((pre + site, "memory allocated at %s is not released by free_poly/free" % site))
     # --- results of every solve: shape, and same state/discs as a fresh context
-    fresh_lines, fresh_map = [], []
-    algo, goal, polyline = "u", "i", None
-    for i, l in enumerate(hlines, 1):
-        w = l.split()
-        if w[0] == "new": algo, goal, polyline = "u", "i", None
-        if w[0] == "algo": algo = w[1]
-        if w[0] == "goal": goal = w[1]
-        if w[0] == "poly": polyline = l
-        if w[0] == "free_poly": polyline = None
-        if w[0] in ("solve", "solve_async") and i in roots and polyline:
-            info["solves"] += 1
-            R = roots[i]
-            if R["err"] or st[i]["err"]: continue
-            dorig = int(model_line(polyline).split()[1]); zexp = int(model_line(polyline).split()[2])
-            if R["count"] + st[i]["zr"] != dorig or st[i]["zr"] != zexp:
-                viol.append(("history:zero_roots:%s" % polyline.split()[1],
-                             "step %d: %d roots returned + zero_roots %d != degree %d (polynomial has %d zero roots)"
-                             % (i, R["count"], st[i]["zr"], dorig, zexp)))
-            for wr in R["r"]:
-                if disc(wr)[2] is None:
-                    viol.append(("results:radius-not-finite", "step %d: root %s has radius %s" % (i, wr[1], wr[5])))
-                    break
-            if want_fresh:
-                base = len(fresh_lines)
-                fresh_lines += ["new", "algo " + algo, "goal " + goal, polyline, "solve", "free"]
-                fresh_map.append((i, base + 5))
-    if want_fresh and fresh_lines:
-        frc, fout, ferr = run_harness(ctx, h, fresh_lines)
-        fst, froots, _ = parse_out(fout)
-        if frc == 0:
-            for i, j in fresh_map:
-                if j not in froots or froots[j]["err"]: continue
-                A, B = roots[i], froots[j]
-                info["fresh_compared"] += 1
-                if [x[2:] for x in A["r"]] == [x[2:] for x in B["r"]]: info["bitexact"] += 1; continue
-                if st[i]["zr"] != fst[j]["zr"]:
-                    viol.append(("history:zero_roots:%s" % hlines[i - 1 - [x.split()[0] for x in hlines[:i]][::-1].index("poly")].split()[1],
-                                 "step %d: zero_roots is %d on the reused context, %d on a fresh one" % (i, st[i]["zr"], fst[j]["zr"])))
-                    continue
-                if A["count"] != B["count"]:
-                    viol.append(("history:count", "step %d: reused context returns %d roots (zr %d), fresh context %d (zr %d)"
-                                 % (i, A["count"], st[i]["zr"], B["count"], fst[j]["zr"])))
-                    continue
-                da = [disc(x) for x in A["r"]]; db = [disc(x) for x in B["r"]]
-                if any(x[2] is None for x in da + db): continue
-                # a disc with status isolated/approximated claims a root: it must meet a disc of the other run
-                for (X, dx, Y, dy, who) in ((A, da, B, db, "reused"), (B, db, A, da, "fresh")):
-                    bad = [k for k in range(len(dx)) if X["r"][k][2] in ("2", "3") and not any(intersects(dx[k], y) for y in dy)]
-                    if bad:
-                        viol.append(("history:discs-disjoint",
-                                     "step %d (%s): disc %d of the %s context meets no disc of the other run" % (i, hlines[i - 1], bad[0], who)))
-                        break
+    for (i, ran, err_before, polyline, S, again) in solve_steps:
+        if not (ran and polyline): continue
+        info["solves"] += 1
+        R = roots[i]
+        if R["err"] or st[i]["err"]: continue
+        dorig = int(model_line(polyline).split()[1]); zexp = int(model_line(polyline).split()[2])
+        if R["count"] + st[i]["zr"] != dorig or st[i]["zr"] != zexp:
+            viol.append(("history:zero_roots:%s" % polyline.split()[1],
+                         "step %d: %d roots returned + zero_roots %d != degree %d (polynomial has %d zero roots)"
+                         % (i, R["count"], st[i]["zr"], dorig, zexp)))
+        for wr in R["r"]:
+            if disc(wr)[2] is None:
+                viol.append(("results:radius-not-finite", "step %d: root %s has radius %s" % (i, wr[1], wr[5])))
+                break
+        j = fresh_at.get(i)
+        if j is None or j not in froots or froots[j]["err"]: continue
+        A, B = R, froots[j]
+        info["fresh_compared"] += 1
+        if [x[2:] for x in A["r"]] == [x[2:] for x in B["r"]]: info["bitexact"] += 1; continue
+        if st[i]["zr"] != fst[j]["zr"]:
+            viol.append(("history:zero_roots:%s" % polyline.split()[1],
+                         "step %d: zero_roots is %d on the reused context, %d on a fresh one" % (i, st[i]["zr"], fst[j]["zr"])))
+            continue
+        if A["count"] != B["count"]:
+            viol.append(("history:count", "step %d: reused context returns %d roots (zr %d), fresh context %d (zr %d)"
+                         % (i, A["count"], st[i]["zr"], B["count"], fst[j]["zr"])))
+            continue
+        da = [disc(x) for x in A["r"]]; db = [disc(x) for x in B["r"]]
+        if any(x[2] is None for x in da + db): continue
+        # a disc with status isolated/approximated claims a root: it must meet a disc of the other run
+        for (X, dx, Y, dy, who) in ((A, da, B, db, "reused"), (B, db, A, da, "fresh")):
+            bad = [k for k in range(len(dx)) if X["r"][k][2] in ("2", "3") and not any(intersects(dx[k], y) for y in dy)]
+            if bad:
+                sfx = ":stale-data_prec_max-after-mp-phase" if (S["algo"] == "u" and stale_dpm_before(hlines, fl, i)) else ""
+                if S["algo"] == "s" and again and S.get("startphase", "0") != "0": sfx = ":secular-resolve-forced-starting-phase"
+                viol.append(("history:discs-disjoint" + sfx,
+                             "step %d (%s): disc %d of the %s context meets no disc of the other run" % (i, hlines[i - 1], bad[0], who)))
+                break
     return viol, info
 
 
@@ -447,16 +636,30 @@ def growth(ctx, h, rng, with_zero_roots):
     cyc = [p1.line, "algo u", "solve", p2.line, "algo s", "solve", "get_roots", p3.line, "solve", "algo u", "free_poly", "mark"]
     lines = ["new"] + cyc * 200 + ["free", "leakcheck"]
     rc, out, err = run_harness(ctx, h, lines, timeout=240)
-    st, _, _ = parse_out(out)
+    st = parse_out(out)[0]
     marks = [st[i]["heap"] for i in sorted(st) if st[i]["op"] == "mark"]
     run_out[("cycle-with-zero-roots" if with_zero_roots else "cycle")] = out
     return rc, marks, err, lines
 
 
 # ----------------------------------------------------------------------------- main
+FLAKY = {"not_reproduced": 0, "samples": []}
+
+
 def report(ctx, h, hlines, viol, tag, do_shrink=True):
     for sig, what in viol:
         script = hlines
+        if sig == "history:discs-disjoint" and tag != "replay":
+            # the numerical result of the multithreaded solvers depends on the thread schedule; a difference from the fresh
+            # context counts against THIS property only when it comes back with the same history in two more runs
+            again = 0
+            for _ in range(2):
+                v2, _i = evaluate(ctx, h, hlines)
+                again += int(any(s2 == sig for s2, _w in v2))
+            if again < 2:
+                FLAKY["not_reproduced"] += 1
+                if len(FLAKY["samples"]) < 3: FLAKY["samples"].append({"tag": tag, "what": what, "reproduced_in_2_reruns": again})
+                continue
         if do_shrink and len(ctx.violations) < 3 and not any(k.get("signature") == sig for k in ctx.known):
             try: script = shrink(ctx, h, hlines, sig)
             except vf.InfraError: raise
@@ -465,10 +668,19 @@ def report(ctx, h, hlines, viol, tag, do_shrink=True):
 
 
 def run(ctx):
+    # findings registered in this property's fragment known/C15.json count as known even before lib/mkmanifest.py has merged
+    # them into known_findings.json (same matching rule: exact signature or the entry's signature_regex)
+    try:
+        have = set((k.get("signature"), k.get("signature_regex")) for k in ctx.known)
+        for k in json.load(open(os.path.join(vf.VERIF, "known", "C15.json"))).get("findings", []):
+            if k.get("property") == ctx.pid and k.get("status", "open") == "open" and (k.get("signature"), k.get("signature_regex")) not in have:
+                ctx.known.append(k)
+    except (OSError, ValueError):
+        pass
     ctx.prove()
     h = ctx.compile_harness([HARNESS], "c15_reuse", mode="san")
     rng = ctx.rng
-    hist = {"ops": {}, "kinds": {}, "lengths": {}, "degree_bucket": {}}
+    hist = {"ops": {}, "kinds": {}, "lengths": {}, "degree_bucket": {}, "aimed": {}}
     samples, totals = [], {"sessions": 0, "steps": 0, "solves": 0, "fresh_compared": 0, "bitexact": 0, "clean_sessions": 0}
 
     if ctx.replay:
@@ -488,46 +700,46 @@ def run(ctx):
                 d = int(model_line(l).split()[1]); b = "%d-%d" % (d // 10 * 10, d // 10 * 10 + 9)
                 hist["degree_bucket"][b] = hist["degree_bucket"].get(b, 0) + 1
 
-    # 1. witnesses of the refutation theorems, on the real code
-    for name, script in WITNESSES.items():
-        v, info = evaluate(ctx, h, script)
-        account(script); totals["sessions"] += 1; totals["steps"] += info["steps"]
-        report(ctx, h, script, v, name, do_shrink=False)
+    FIELDS = ("steps", "solves", "fresh_compared", "bitexact", "wide_steps", "flag_solves", "phase_differs", "size_steps")
+    for f in FIELDS: totals.setdefault(f, 0)
 
-    # 2. random sessions: clean ones (inputs of the known defects avoided) and unrestricted ones
-    n_clean, n_full = ctx.pick((20, 12), (300, 200))
+    # all sessions are generated first (deterministically from ctx.rng), then evaluated 4 at a time
+    jobs = []                       # (tag, script, shrink?)
+    # 1. witnesses of the refutation theorems and of the known defects, on the real code
+    for name, script in WITNESSES.items():
+        jobs.append((name, script, False))
+    # 2. random sessions over the widened operation set: clean ones (inputs of the known defects avoided) and unrestricted ones
+    n_clean, n_full = ctx.pick((34, 22), (400, 300))
     dmax = ctx.pick(24, 40)
-    seen = set()
     for k in range(n_clean + n_full):
         clean = k < n_clean
-        length = rng.randint(1, 30)
-        ops = gen_session(rng, length, clean, dmax)
-        hl = [o[0] for o in ops]
-        key = tuple(model_line(l) for l in hl)
-        v, info = evaluate(ctx, h, hl)
+        ops = gen_session(rng, rng.randint(1, 30), clean, dmax)
+        jobs.append(("random-%s-%d" % ("clean" if clean else "full", k), [o[0] for o in ops], True))
+    # 2a. sessions aimed at the case splits of the proofs
+    for k in range(ctx.pick(32, 320)):
+        jobs.append(("aimed-%s-%d" % (AIMED[k % len(AIMED)], k), gen_aimed_session(rng, k, dmax), True))
+    # 2b. growing / shrinking degrees with multiple roots and clusters on one context (standard algorithm)
+    for k in range(ctx.pick(10, 120)):
+        goal = "a" if k % 5 == 4 else "i"
+        jobs.append(("grow-%s-%d" % (goal, k), gen_grow_session(rng, goal, ctx.pick(18, 30)), True))
+
+    import concurrent.futures
+    with concurrent.futures.ThreadPoolExecutor(max_workers=4) as ex:
+        results = list(ex.map(lambda j: evaluate(ctx, h, j[1]), jobs))
+    seen = set()
+    for (tag, hl, do_shrink), (v, info) in zip(jobs, results):
         account(hl)
-        totals["sessions"] += 1; totals["clean_sessions"] += int(clean)
-        for f in ("steps", "solves", "fresh_compared", "bitexact"): totals[f] += info[f]
-        totals["size_steps"] = totals.get("size_steps", 0) + info.get("size_steps", 0)
+        kind = tag.split("-")[0] if "-" in tag else "witness"
+        totals["sessions"] += 1
+        totals[kind + "_sessions"] = totals.get(kind + "_sessions", 0) + 1
+        if tag.startswith("random-clean"): totals["clean_sessions"] += 1
+        if tag.startswith("aimed-"): hist["aimed"][tag.split("-")[1]] = hist["aimed"].get(tag.split("-")[1], 0) + 1
+        for f in FIELDS: totals[f] += info.get(f, 0)
         lb = "%d-%d" % (len(hl) // 10 * 10, len(hl) // 10 * 10 + 9)
         hist["lengths"][lb] = hist["lengths"].get(lb, 0) + 1
-        if key not in seen and len([l for l in hl if l.startswith("solve")]) >= 1: seen.add(key)
-        if len(samples) < 4: samples.append([l[:60] for l in hl[:8]])
-        report(ctx, h, hl, v, "random-%s-%d" % ("clean" if clean else "full", k))
-
-    # 2b. growing / shrinking degrees with multiple roots and clusters on one context (standard algorithm)
-    n_grow = ctx.pick(10, 120)
-    for k in range(n_grow):
-        goal = "a" if k % 5 == 4 else "i"
-        hl = gen_grow_session(rng, goal, ctx.pick(18, 30))
-        v, info = evaluate(ctx, h, hl)
-        account(hl)
-        totals["sessions"] += 1; totals["grow_sessions"] = totals.get("grow_sessions", 0) + 1
-        for f in ("steps", "solves", "fresh_compared", "bitexact"): totals[f] += info[f]
-        totals["size_steps"] = totals.get("size_steps", 0) + info.get("size_steps", 0)
-        seen.add(tuple(hl))
-        if k == 0: samples.append([l[:60] for l in hl[:8]])
-        report(ctx, h, hl, v, "grow-%s-%d" % (goal, k))
+        if any(l.startswith("solve") for l in hl): seen.add(tuple(model_line(l) for l in hl))
+        if len(samples) < 6 and kind in ("random", "aimed") and totals[kind + "_sessions"] <= 3: samples.append([l[:60] for l in hl[:8]])
+        report(ctx, h, hl, v, tag, do_shrink=do_shrink)
 
     # 2c. the same kind of sessions under valgrind/memcheck on the uninstrumented build (sees accesses made inside
     #     libgmp and reads past a block, which ASan + the GMP guard do not); a handful in the quick tier, more in thorough
@@ -546,7 +758,10 @@ def run(ctx):
                 m = re.search(r"(Invalid (?:read|write|free)[^\n]*)\n((?:==\d+==\s+(?:at|by) [^\n]*\n)+)", err)
                 fr = re.findall(r"(?:at|by) 0x[0-9A-F]+: (\w+) \((?!in /usr)", m.group(2))[:3] if m else []
                 approx = any(l == "goal a" for l in script)
-                sig = "gmp-overflow:stale-precision-after-approximate" if approx else "valgrind:%s:%s" % ((m.group(1).split(" of")[0].replace(" ", "-") if m else "error"), "<".join(fr))
+                stale = stale_dpm_before(script, parse_out(out)[4], len(script))
+                sig = ("gmp-overflow:stale-precision-after-approximate" if approx else
+                       "gmp-overflow:stale-data_prec_max-after-mp-phase" if stale else
+                       "valgrind:%s:%s" % ((m.group(1).split(" of")[0].replace(" ", "-") if m else "error"), "<".join(fr)))
                 ctx.violation(sig, "memcheck: %s in %s" % (m.group(1) if m else "error", "<".join(fr)), {"script": script, "tag": "valgrind"})
 
     # 3. heap growth over 200 repetitions of a fixed cycle
@@ -555,7 +770,7 @@ def run(ctx):
         rc, marks, err, lines = growth(ctx, h, rng, zr)
         name = "cycle-with-zero-roots" if zr else "cycle"
         if rc == 0 and len(marks) >= 200:
-            gst, groots, gleaks = parse_out(run_out[name])
+            gleaks = parse_out(run_out[name])[2]
             if any(v == 1 for v in gleaks.values()):
                 for site in leak_sites(err):
                     pre = "leak:zero-roots-resize:" if (zr and re.search(r"mps_allocate_data|mps_context_expand", site)) else "leak:"
@@ -588,13 +803,18 @@ def run(ctx):
     cov = {
         "evaluations": totals["steps"],
         "distinct_nontrivial": len(seen),
-        "rule": "distinct random operation sequences (as model scripts) containing at least one solve; evaluations = operations executed on the real library and compared with the extracted model",
+        "rule": "distinct operation sequences (as model scripts) containing at least one solve; evaluations = operations executed on the real library and compared with the extracted model of the widened API",
         "sessions": totals["sessions"], "clean_sessions": totals["clean_sessions"], "grow_multiple_root_sessions": totals.get("grow_sessions", 0),
+        "aimed_sessions": hist["aimed"], "witness_sessions": totals.get("witness_sessions", 0),
+        "steps_equal_to_widened_model": totals["wide_steps"],
+        "solves_with_over_max_and_error_flag_equal_to_fresh_context": totals["flag_solves"],
+        "solves_whose_lastphase_differs_from_fresh_context_not_judged": totals["phase_differs"],
         "steps_with_all_12_array_sizes_equal_to_model": totals.get("size_steps", 0), "array_size_mismatches": len(SIZE_MISMATCH),
         "valgrind_sessions": vg_runs,
         "solves": totals["solves"], "solves_compared_with_fresh_context": totals["fresh_compared"],
         "solves_bit_identical_to_fresh_context": totals["bitexact"],
         "heap_growth": growth_info,
+        "schedule_dependent_disc_differences_not_reproduced": FLAKY,
         "op_histogram": hist["ops"], "poly_kind_histogram": hist["kinds"], "length_histogram": hist["lengths"],
         "degree_histogram": hist["degree_bucket"],
         "samples": samples,
